@@ -352,7 +352,26 @@ def c_hasher_life(r, c):
     return None
 
 
-CORRUPT = {"read_long": c_read_long, "write_long": c_write_long, "rt_long": c_rt_long, "doc_long": c_doc_long, "cl_long": c_cl_long,
+def c_rt_slice(r, c):
+    # the second element reported with the first element's value in one field that differs
+    vals = r["in"]["values"]
+    if len(r["decoded"]) < 2:
+        return None
+    for k in sorted(vals[1]):
+        if vals[0][k] != vals[1][k] and r["decoded"][1].get(k) == vals[1][k] and vals[0][k] not in ([], "", 0, False):
+            r["decoded"][1][k] = vals[0][k]
+            return r
+    return None
+
+
+def c_write_fault(r, c):
+    if c != "write-refused":
+        return None
+    r["errs"] = [False for _ in r["errs"]]
+    return r
+
+
+CORRUPT = {"rt_slice": c_rt_slice, "write_fault": c_write_fault, "read_long": c_read_long, "write_long": c_write_long, "rt_long": c_rt_long, "doc_long": c_doc_long, "cl_long": c_cl_long,
            "hasher_life": c_hasher_life, "upseq": c_upseq, "rt2": c_rt2, "cs_ops": c_cs_ops, "deb_ops": c_deb_ops, "cmp": c_cmp, "row": c_row, "triple": c_triple, "sort": c_sort, "parse": c_parse, "dep": c_dep, "dep_rt": c_dep_rt,
            "arch_rt": c_arch_rt, "is": c_is, "setmatch": c_setmatch, "select": c_select, "sat": c_sat, "read": c_read,
            "write": c_write, "rw": c_rw, "rt": c_rt, "passthru": c_passthru, "doc": c_doc, "cs": c_cs, "hw": c_hw, "hr": c_hw,
